@@ -397,6 +397,10 @@ def check_covariance(res, entry: str, cls: str, exp_cov=None) -> list:
         cov = np.asarray(res.covariance)
         err = np.asarray(res.error)
     nb = samples.shape[1]
+    after = np.asarray(res.samples, dtype=np.float64)
+    if after.shape != samples.shape or not np.array_equal(after, samples):
+        out.append(("C03|SampledData.covariance|jackknife_samples|samples_modified_by_covariance_or_error",
+                    dict(product=entry, input_class=cls, samples_before=samples.tolist(), samples_after=after.tolist())))
     detail = dict(product=entry, input_class=cls, samples=samples.tolist(), covariance=cov.tolist(), error=err.tolist())
     if cov.shape != (nb, nb) or err.shape != (nb,):
         return [("C03|SampledData.covariance|jackknife_samples|shape", detail)]
